@@ -8,7 +8,8 @@ parser built.  A catalogue of well-formedness-breaking edits (C03) is applied at
 import random
 
 XMLNS = "http://www.w3.org/XML/1998/namespace"
-URIS = ["u1", "u2", "u3", "http://x?a=1&b=2", "u v"]
+XMLNS_URI = "http://www.w3.org/XML/1998/namespace"      # bound to another prefix (or as default): accepted by the crate
+URIS = ["u1", "u2", "u3", "http://x?a=1&b=2", "u v", XMLNS_URI]
 
 
 def cps(s):
@@ -306,6 +307,9 @@ def render_doc(doc, ch, mode="doc", encoding=None):
     """tokens of one rendering.  mode "doc": prolog + root + epilog; "frag": the content list doc["kids"]."""
     toks = []
     if mode == "doc":
+        if encoding is None and ch.pick(8, "bom") == 7:
+            # a byte order mark in front of everything: not a token of the document, but every offset counts it
+            toks.append(tok("bom", [part("lit", [0xFEFF])]))
         d = ch.pick(4, "xmldecl") if encoding is None else 1
         if d:
             txt = '<?xml version="1.0"'
@@ -383,7 +387,9 @@ def rand_elem(rnd, depth, scope, budget, rich=True):
             continue
         attrs.append((a_ns, a_ln, rand_string(rnd, 4, rich)))
     if rnd.random() < 0.12:
-        attrs.append((XMLNS, "id", cps(rnd.choice(["i1", "i2", "x y", "i3"]))))
+        # (only #x20 is trimmed and collapsed by xml:id normalisation: TAB, LF, CR - written as references - and other
+        # Unicode spaces are part of the value)
+        attrs.append((XMLNS, "id", cps(rnd.choice(["i1", "i2", "x y", "i3", "i1", "i2", "\ti4", "i5\r", "a\tb", "\u00a0i6", "i7\u3000", "x\n y"]))))
     if rnd.random() < 0.08:
         attrs.append((XMLNS, "space", cps(rnd.choice(["preserve", "default"]))))
     kids = []
@@ -490,7 +496,7 @@ DAMAGES = ["dup-attr-expanded-inherited", "rename-etag", "delete-etag", "duplica
            "dup-attr-qname", "dup-attr-expanded", "dup-prefix-decl", "undeclared-elem-prefix", "undeclared-attr-prefix",
            "raw-lt", "raw-amp", "cdata-end-in-text", "unterminated-comment", "double-dash-comment", "unterminated-pi", "unterminated-cdata",
            "unterminated-ref", "unknown-entity", "bad-charref-syntax", "nonchar-ref", "dtd", "version-1.1", "dup-xml-id", "unclosed-root",
-           "etag-other-prefix-same-ns", "truncated-stag", "lt-in-attr", "prefix-after-scope", "charref-overflow"]
+           "etag-other-prefix-same-ns", "truncated-stag", "lt-in-attr", "prefix-after-scope", "charref-overflow", "dup-xml-id-other-prefix"]
 
 NONCHARS = [0, 1, 8, 11, 0xFFFE, 0xFFFF, 0xD800, 0x110000]
 
@@ -673,6 +679,15 @@ def damage(toks, kind, rnd, mode="doc"):
             px="", ln="b", empty=True, attrs=[{"px": "xml", "ln": "id", "pieces": [piece("lit", c) for c in cps(" dup  ")], "q": 34}]))
         if i >= len(t) or t[i]["k"] != "stag":
             return None
+    elif kind == "dup-xml-id-other-prefix" and len(stags) >= 1 and content_pos:
+        # the same ID once as xml:id and once under another prefix bound to the XML namespace
+        i = stags[0]
+        add_attr(t[i], "xmlns", "dx", [piece("lit", c) for c in cps(XMLNS_URI)])
+        add_attr(t[i], "xml", "id", [piece("lit", c) for c in cps("dup")])
+        t.insert(rnd.choice([p for p in content_pos if p > i] or [len(t)]), tok(
+            "stag", [part("lit", "<"), part("ename", "b"), part("lit", " "), part("aname", "dx:id"), part("lit", "="), part("lit", [34]),
+                     part("aval", cps("dup")), part("lit", [34]), part("lit", "/>")],
+            px="", ln="b", empty=True, attrs=[{"px": "dx", "ln": "id", "pieces": [piece("lit", c) for c in cps("dup")], "q": 34}]))
     elif kind == "unclosed-root" and etags:
         del t[etags[-1]:]
     elif kind == "etag-other-prefix-same-ns" and open_stags:
@@ -747,3 +762,15 @@ def scope_exit_docs():
                 root = E("", "a", decls=[("p", "u1")], kids=[b, y])
                 docs.append({"before": [], "root": root, "after": []})
     return docs
+
+
+def scope_exit_frags():
+    """fragments with several top-level elements: what the first one declares must not reach the later ones"""
+    frags = []
+    E = lambda ns, ln, decls=(), attrs=(), kids=(): {"ns": ns, "ln": ln, "decls": list(decls), "attrs": list(attrs), "kids": list(kids)}
+    for bdecl, bns in (([("", "u2")], "u2"), ([("p", "u2")], ""), ([("", "u2"), ("p", "u1")], "u2"), ([("q", "u1")], "")):
+        for content in ([], [E(bns, "c")], [("text", [120])]):
+            for lead in ([], [("text", [120])], [("comm", [120])]):
+                for tail in ([E("", "b")], [E("", "b", kids=[E("", "c")])], [("text", [121]), E("", "b", attrs=[("", "a", [118])])], [E("", "b"), E("", "c")]):
+                    frags.append({"kids": lead + [E(bns, "a", decls=bdecl, kids=content)] + tail})
+    return frags
